@@ -33,6 +33,28 @@ type SliceV struct {
 	Cap int
 }
 
+// SymSliceV is a freshly made slice whose length is still symbolic (bounded by
+// Cap, the allocated element count). Any use other than len/cap/indexing
+// concretises it (forks).
+type SymSliceV struct {
+	Obj *Object
+	Off int
+	Len *Term // 64-bit
+	Cap int
+}
+
+func (x *Exec) sl(v Value) SliceV {
+	switch s := v.(type) {
+	case SliceV:
+		return s
+	case SymSliceV:
+		k := x.concretize(s.Len, s.Cap+1)
+		return SliceV{Obj: s.Obj, Off: s.Off, Len: k, Cap: k}
+	}
+	x.abort("unsupported", fmt.Sprintf("expected slice, got %T", v))
+	return SliceV{}
+}
+
 type StrV struct {
 	S   string
 	Sym []*Term // if non-nil, symbolic bytes (len = string length); S unused
